@@ -2,20 +2,10 @@
    rdsparser_string_update_single (GenMid.v), without the model: with the progressive flag set, the
    call leaves every cell other than the addressed one alone and never raises the level of the
    addressed cell; whatever the arguments (no range restriction). *)
-Require Export Lemmas_Base GenLeaf GenMid.
+Require Export Lemmas_MidBase.
 Require Import ZifyBool.
 Local Open Scope Z_scope.
 
-Ltac prune := cbn [negb andb orb]; cbv iota.
-Ltac decide_atoms :=
-  prune;
-  repeat match goal with
-         | |- context [?a =? ?b] => destruct (a =? b) eqn:?; prune
-         | |- context [?a <? ?b] => destruct (a <? b) eqn:?; prune
-         | |- context [?a <=? ?b] => destruct (a <=? b) eqn:?; prune
-         | |- context [?a >=? ?b] => destruct (a >=? b) eqn:?; prune
-         | |- context [?a >? ?b] => destruct (a >? b) eqn:?; prune
-         end.
 
 Definition improves (single : list Z -> list Z -> Z -> Z -> Z -> Z -> Z -> Z -> Z * list Z * list Z) : Prop :=
   forall c e inp ei ed pos prog al, prog <> 0 -> (pos < length e)%nat -> (pos < length c)%nat ->
